@@ -10,7 +10,7 @@ def run(ctx):
     meta = ctx.drive(out, shards=16)
     traces = vlib.glob_traces(out)
     bad, st = ctx.accept(ACC, ACC_CFG, traces)
-    if st.get("segs", 0) != meta["segments"] or st.get("runs", 0) != meta["segments"]:
+    if st.get("segs", 0) != meta["segments"] or (not bad and st.get("runs", 0) != meta["segments"]):
         raise vlib.Infra("acceptor saw %s segments / %s runs, driver wrote %s" % (st.get("segs"), st.get("runs"), meta["segments"]))
     if not meta.get("timed_out") and len(meta["runs_per_kind"]) != 13:
         raise vlib.Infra("driver covered %d iterator kinds, expected 13" % len(meta["runs_per_kind"]))
